@@ -418,6 +418,7 @@ func runC01(c *Ctx, r *Report) {
 	r.floor("cache-key appends", n, 1)
 	// shared with C02: 'word' terms must match regardless of the scan direction chosen by --scheme/--tiebreak
 	c02r3(c, r)
+	c02r5(c, r) // the pre-filter must not hide lines that match through an upper-case letter
 	c01r4(c, r)
 	c08r8(c, r) // interactive list: no matching line dropped after going back to an earlier query
 }
